@@ -62,6 +62,7 @@ Record Rel (p : params) (m : mstate) (s : sstate) : Prop := {
   r_rel : s_rel s = frames_rel (gone m) (stack m);
   r_recv : s_recv s = frames_recv (stack m);
   r_tok : toks_ok (next m) (stack m) (queue m);
+  r_dir : forall x h mm, In x (queue m) -> q_dir x = Some (h, mm) -> inb h (gone m) = false;
 }.
 
 (* ---------- filter lemmas ---------- *)
@@ -180,8 +181,11 @@ Proof.
 Qed.
 
 (* ---------- seek ---------- *)
+Lemma targets_ext f g x : (forall e, f e = g e) -> targets f x = targets g x.
+Proof. intro H. unfold targets. destruct (q_dir x); [reflexivity|apply H]. Qed.
+
 Lemma skippable_ext f g x : (forall e, f e = g e) -> skippable f x = skippable g x.
-Proof. intro H. unfold skippable. rewrite H. reflexivity. Qed.
+Proof. intro H. unfold skippable. rewrite (targets_ext f g x H). reflexivity. Qed.
 
 Lemma seek_ext f g t q : (forall e, f e = g e) -> seek f t q = seek g t q.
 Proof.
@@ -199,3 +203,30 @@ Proof.
   - apply Z.eqb_eq in E. injection H as -> ->. cbn [map In]. repeat split; auto.
   - destruct (skippable f y); [|discriminate]. destruct (IH _ _ H) as [H1 [H2 H3]]. cbn [map In]. repeat split; auto.
 Qed.
+
+Lemma seek_In f t q x rest : seek f t q = Some (x, rest) -> In x q /\ (forall y, In y rest -> In y q).
+Proof.
+  revert x rest. induction q as [|y q IH]; intros x rest H; [discriminate|]. cbn [seek] in H.
+  destruct (q_tok y =? t).
+  - injection H as -> ->. split; [left; reflexivity|intros z Hz; right; exact Hz].
+  - destruct (skippable f y); [|discriminate]. destruct (IH _ _ H) as [H1 H2].
+    split; [right; exact H1|intros z Hz; right; exact (H2 z Hz)].
+Qed.
+
+Lemma relay_holds_false h q : relay_holds h q = false ->
+  forall x h' mm, In x q -> q_dir x = Some (h', mm) -> h' <> h.
+Proof.
+  unfold relay_holds. intros H x h' mm Hx Hd E. subst h'.
+  assert (existsb (fun x => match q_dir x with Some hm => fst hm =? h | None => false end) q = true).
+  { apply existsb_exists. exists x. split; [exact Hx|]. rewrite Hd. cbn [fst]. apply Z.eqb_refl. }
+  congruence.
+Qed.
+
+Lemma relay_dir p t h x : In x (relay p t h) -> q_tok x = t /\ exists mm, q_dir x = Some (h, mm).
+Proof.
+  unfold relay. destruct (alookup on_add_ev (events_of p h)) as [m|]; [|intros []].
+  intros [<-|[]]. cbn. split; [reflexivity|eexists; reflexivity].
+Qed.
+
+Lemma in_callback_recv stk : in_callback stk = negb (isnil (frames_recv stk)).
+Proof. induction stk as [|[[o|] r|d|t c] stk IH]; cbn [in_callback frames_recv isnil negb]; auto. Qed.
